@@ -36,7 +36,7 @@ RULE += (
 )
 MUST_HIT = ["div_remainder_multichannel", "div_n_gt_len", "mismatch_sr", "mismatch_sw", "mismatch_ch", "join_3",
             "mutation_refused", "ragged_refused", "silence", "eq_true", "eq_false", "twin_same_bytes_per_sample", "format_grid",
-            "silence_over_1MiB", "join_one_shot_iterable", "div_into_700_or_more", "join_many_then_mismatch"]
+            "silence_over_1MiB", "augmented_assignment", "join_one_shot_iterable", "div_into_700_or_more", "join_many_then_mismatch"]
 ASSUMPTIONS = ["dividing an empty region is not claimed by the statement and not generated"]
 BOUNDS = {"quick": dict(n=200, steps=30), "thorough": dict(n=4000, steps=50)}
 MAXBYTES = 6000
@@ -63,10 +63,22 @@ class Interp:
         if not isinstance(region, auditok.AudioRegion):
             raise Violation(f"result is {type(region).__name__}, not an AudioRegion", self.case())
         self.verify(region, model, "result")
+        if not hasattr(self, "snap"):
+            self.snap = {}
+        self.snap[id(region)] = self.times(region)
         if len(self.pool) < 14:
             self.pool.append((region, model, depth))
         else:
             self.pool[len(self.ops) % 14] = (region, model, depth)
+
+    @staticmethod
+    def times(region):
+        import warnings
+
+        with warnings.catch_warnings():
+            warnings.simplefilter("ignore")
+            meta = region.meta
+            return (region.start, region.end, region.duration, None if meta is None else sorted(dict(meta).items()))
 
     def verify(self, region, model, what):
         data, sr, sw, ch = model
@@ -111,9 +123,15 @@ class Interp:
             return
         self.ops.append(op)
         with lib_guard(self.case):
+            held = [r for r, _m, _d in self.pool]
+            before = [self.times(r) for r in held]
             self._apply(name, op)
             for region, model, _d in self.pool:
                 self.verify(region, model, "operand after the step")
+            for r, t in zip(held, before):
+                if self.times(r) != t:
+                    raise Violation(f"a step changed start / end / duration / meta of a region it only used as an operand: "
+                                    f"{t} -> {self.times(r)}", self.case())
 
     def _apply(self, name, op):
         case = self.case
@@ -144,6 +162,34 @@ class Interp:
                 return
             self.touch(ma, da, db)
             self.combine(lambda: a + b, [ma, mb], ma[0] + mb[0], max(da, db) + 1)
+        elif name == "iadd":
+            # x = a; x += b: a new region bound to x, the object a refers to stays what it is
+            (a, ma, da), (b, mb, db) = self.pick(op[1]), self.pick(op[2])
+            if len(ma[0]) + len(mb[0]) > MAXBYTES:
+                return
+            self.touch(ma, da, db)
+            self.classes.add("augmented_assignment")
+
+            def run():
+                x = a
+                x += b
+                return x
+
+            self.combine(run, [ma, mb], ma[0] + mb[0], max(da, db) + 1)
+        elif name == "sum_loop":
+            items = [self.pick(i) for i in op[1]]
+            if sum(len(m[0]) for _r, m, _d in items) > MAXBYTES:
+                return
+            self.touch(items[0][1], *[d for _r, _m, d in items])
+            self.classes.add("augmented_assignment")
+
+            def run():
+                acc = 0
+                for r, _m, _d in items:
+                    acc += r
+                return acc
+
+            self.combine(run, [m for _r, m, _d in items], b"".join(m[0] for _r, m, _d in items), max(d for _r, _m, d in items) + 1)
         elif name == "sum":
             items = [self.pick(i) for i in op[1]]
             if sum(len(m[0]) for _r, m, _d in items) > MAXBYTES:
@@ -420,6 +466,19 @@ class AlgebraMachine(RuleBasedStateMachine):
     def sum_(self, ids):
         self.it.apply(["sum", ids])
 
+    @rule(i=IDX, j=IDX)
+    def iadd(self, i, j):
+        self.it.apply(["iadd", i, j])
+
+    @rule(ids=st.lists(IDX, min_size=1, max_size=4))
+    def sum_loop(self, ids):
+        self.it.apply(["sum_loop", ids])
+
+    @rule(i=IDX, n=st.sampled_from([2**31, 2**63 - 1, 2**63, 2**64, 2**64 + 3, 10**30]))
+    def div_huge(self, i, n):
+        if len(self.it.pick(i)[1][0]) <= 64:
+            self.it.apply(["div", i, n])
+
     @rule(i=IDX, n=st.integers(1, 4), r=st.booleans())
     def mul(self, i, n, r):
         self.it.apply(["rmul" if r else "mul", i, n])
@@ -492,6 +551,9 @@ def explicit_cases():
         # regions that carry times, joined in an order that is not chronological: the order given is the order joined
         {"cfg": cfg, "ops": [["new", 3, 0, 1, 5.0], ["new", 2, 0, 2, 1.0], ["new", 4, 0, 3, 3.0], ["new", 1, 0, 4, 0.5],
                              ["join", 3, [0, 1, 2]], ["join", 0, [2, 1], "gen"], ["join", 1, [0, 2, 3, 1], "tuple"], ["sum", [0, 1, 2]], ["add", 0, 1]]},
+        {"cfg": cfg, "ops": [["new", 5, 0, 1, None], ["new", 3, 0, 2, 1.5], ["new", 1, 0, 3, None], ["div", 0, 1], ["div", 2, 1], ["div", 2, 4], ["div", 1, 1],
+                             ["iadd", 0, 1], ["iadd", 1, 1], ["sum_loop", [0, 1, 2]], ["sum_loop", [1]], ["div", 0, 2**64], ["div", 1, 10**30],
+                             ["div", 0, 2**63], ["eq", 0, 0]]},
         {"div_big": [2000, 747, [16000, 2, 1], 1]}, {"div_big": [2000, 1000, [16000, 2, 2], 2]},
         {"div_big": [2000, 1500, [8000, 1, 1], 3]}, {"div_big": [1200, 3000, [10, 4, 3], 4]},
         {"div_big": [5000, 5000, [10, 2, 1], 5]}, {"div_big": [160000, 1000, [16000, 2, 1], 6]},
